@@ -3,7 +3,7 @@
    Spec:  select = vis o tprune, by recursion on call trees (UV.C07.Model). *)
 From Coq Require Import NArith ZArith List Bool.
 Import ListNotations.
-Require Import UV.C07.Model UV.C07.Check UV.C07.Proofs UV.C07.RecordReplay.
+Require Import UV.C07.Model UV.C07.Check UV.C07.Proofs UV.C07.Replay UV.C07.RecordReplay.
 Local Open Scope Z_scope.
 
 (* get_task_ustack's look-ahead list (time filter -t / time=, caller filter -C, `trace`) hands the
@@ -42,6 +42,25 @@ Theorem C07_commands_agree_nomerge : forall c rs, plt_free_all c -> no_merge c =
   run_rp c rs = run_std c rs.
 Proof. exact rp_nomerge_eq_std. Qed.
 Print Assumptions C07_commands_agree_nomerge.
+
+(* replay WITH leaf folding (fstack_skip, fstack_check_skip, the delayed ENTRY line) shows the same calls
+   as report/graph/dump for every record stream whose depth fields are the nesting (dcons0), every option
+   set - trace_on/trace_off and -r included -, provided no PLT function is hidden by --no-libcall. *)
+Theorem C07_commands_agree_replay : forall c rs, plt_free_all c -> dcons0 (pre c rs) ->
+  run_rp c rs = run_std c rs.
+Proof. exact rp_eq_std_stream. Qed.
+Print Assumptions C07_commands_agree_replay.
+
+Theorem C07_commands_agree_replay_forest : forall c f, plt_free_all c -> no_range c = true ->
+  run_rp c (flats 0 f) = run_std c (flats 0 f).
+Proof. exact rp_eq_std_forest. Qed.
+Print Assumptions C07_commands_agree_replay_forest.
+
+(* hence replay shows the documented selection, display depths included *)
+Theorem C07_matches_documented_replay : forall c f, plt_free_all c -> no_switch_all c -> no_range c = true ->
+  run_rp c (flats 0 f) = select c f.
+Proof. exact replay_matches_select. Qed.
+Print Assumptions C07_matches_documented_replay.
 
 (* --no-libcall breaks the agreement: replay tests the symbol type before fstack_entry *)
 Theorem C07_no_libcall_commands_agree_refuted :
